@@ -1,0 +1,76 @@
+//go:build verif
+
+// Contracts for the NEO N3 state-validator registry (C33, C18), read by /verif/gocv.
+package neo3_state_manager
+
+//@ spec svKey(prefix string, id uint64) KeyT = K2(utils.Neo3StateManagerContractAddress, prefix, u64le(id))
+//@ spec svListKey() KeyT = K1(utils.Neo3StateManagerContractAddress, "stateValidator")
+
+//@ func getStateValidators
+//@   property C33
+//@   mode abstract
+//@   requires native != nil
+//@   modifies nothing
+
+//@ func putStateValidators
+//@   property C33
+//@   mode abstract
+//@   requires native != nil
+//@   modifies Store
+//@   -- only the validator list record changes
+//@   ensures Store == upd(old(Store), svListKey(), Store[svListKey()])
+
+//@ func removeStateValidators
+//@   property C33
+//@   mode abstract
+//@   requires native != nil
+//@   modifies Store
+//@   ensures Store == upd(old(Store), svListKey(), Store[svListKey()])
+
+//@ func getStateValidatorApply
+//@   property C33
+//@   mode abstract
+//@   requires native != nil
+//@   modifies nothing
+//@   ensures err == nil ==> (r0 == nil <==> Store[svKey("stateValidatorApply", applyID)] == None)
+
+//@ func getStateValidatorRemove
+//@   property C33
+//@   mode abstract
+//@   requires native != nil
+//@   modifies nothing
+//@   ensures err == nil ==> (r0 == nil <==> Store[svKey("stateValidatorRemove", removeID)] == None)
+
+//@ func ApproveRegisterStateValidator
+//@   property C33, C18
+//@   mode abstract
+//@   requires native != nil && native.tx != nil
+//@   modifies Store
+//@   ghost var wit bool = false
+//@   ghost var cid uint64 = 0
+//@   ghost var fired bool = false
+//@   set after "err := utils.ValidateOwner(native, params.Address)" : wit := err == nil
+//@   set after "err := utils.ValidateOwner(native, params.Address)" : cid := params.ID
+//@   set after "ok, err := node_manager.CheckConsensusSigns(native, APPROVE_REGISTER_STATE_VALIDATOR, utils.GetUint64Bytes(params.ID), params.Address)" : fired := ok && err == nil
+//@   callsite[c18-owner] ValidateOwner#1 requires arg1 == params.Address
+//@   callsite[c32-separation] CheckConsensusSigns#1 requires arg1 == "approveRegisterStateValidator" && bytes(arg2) == u64le(params.ID) && arg3 == params.Address
+//@   ensures[c18-witness] Store != old(Store) ==> wit
+//@   ensures[c33-consumed] r1 == nil && fired ==> Store[svKey("stateValidatorApply", cid)] == None
+//@   ensures[c33-onlyapproved] !fired ==> Store[svListKey()] == old(Store)[svListKey()]
+
+//@ func ApproveRemoveStateValidator
+//@   property C33, C18
+//@   mode abstract
+//@   requires native != nil && native.tx != nil
+//@   modifies Store
+//@   ghost var wit bool = false
+//@   ghost var cid uint64 = 0
+//@   ghost var fired bool = false
+//@   set after "err := utils.ValidateOwner(native, params.Address)" : wit := err == nil
+//@   set after "err := utils.ValidateOwner(native, params.Address)" : cid := params.ID
+//@   set after "ok, err := node_manager.CheckConsensusSigns(native, APPROVE_REMOVE_STATE_VALIDATOR, utils.GetUint64Bytes(params.ID), params.Address)" : fired := ok && err == nil
+//@   callsite[c18-owner] ValidateOwner#1 requires arg1 == params.Address
+//@   callsite[c32-separation] CheckConsensusSigns#1 requires arg1 == "approveRemoveStateValidator" && bytes(arg2) == u64le(params.ID) && arg3 == params.Address
+//@   ensures[c18-witness] Store != old(Store) ==> wit
+//@   ensures[c33-consumed] r1 == nil && fired ==> Store[svKey("stateValidatorRemove", cid)] == None
+//@   ensures[c33-onlyapproved] !fired ==> Store[svListKey()] == old(Store)[svListKey()]
